@@ -33,8 +33,8 @@ PROBES = ["done_by_budget", "done_by_degenerate_before_exhaustion", "done_by_exh
           "reset_after_torn_call", "solver_probe", "model_instance_env", "independent_normalisation_checked",
           "step_after_done", "unstep_out_of_order"]
 TIERS = {
-    "quick": {"runs": 5000, "wall": 45, "batch": 8, "shrink_s": 40},
-    "thorough": {"runs": 400000, "wall": 900, "batch": 16, "shrink_s": 120},
+    "quick": {"runs": 8000, "wall": 40, "batch": 8, "shrink_s": 40},
+    "thorough": {"runs": 2000000, "wall": 900, "batch": 16, "shrink_s": 120},
 }
 SA_KEYS = ["factory", "factory_square", "noisy_factory", "noisy_factory_exp", "graph_random", "graph_cycle",
            "graph_ws_connected", "factory_cheerleader", "factory_cheerleader_next", "graph", "graph_beta_2_3",
